@@ -23,6 +23,38 @@ Flow (DESIGN.md section 5, C17 and Appendix E.1):
     superposition of spec trees and against the superposition of the library's own
     single-centre functions.
 
+ 4. (audit, 2026-09-26) ``CoulombForms.tla`` states over which REQUESTS the statement is made; TLC
+    (``CoulombFormsGen``) emits the tables, the harness realises them, TLC (``CoulombFormsJudge``) judges
+    every observation and the completeness of the set:
+    A. call forms of ``coulomb_gaussian_s/p``: 16 forms of r (float64 / list / tuple / int64 / float32 /
+       float16 / longdouble / strided view / read-only / 2-d / Fortran 2-d / 3-d / 0-d / Python float, int /
+       NumPy scalar) x 13 compositions with respect to the switch (mixed, all above, all below, zeros, far
+       field, empty, one radius of each class: 0, below, exactly on, above the threshold, far, >= 1e150,
+       infinity) x 12 forms of alpha (Python / NumPy floats and integers of every width, 0-d arrays) x 7 forms
+       of the flag (omitted, positional, keyword, numpy.bool_) x {s, p}: shape of r, fresh float64 answer,
+       every element against the tree at the exact value, arguments untouched, same answer for the same
+       objects.  thorough: all 25200 requests; quick: a VERIF_SEED-drawn stratified ~1500.
+    B. configurations of ``coulomb_potential``: s set (none / 1 / 3 / 24 / a shipped element set obtained
+       through ``load_atomic_gaussian_params`` / three of them as a molecule) x p set (omitted / three Nones /
+       empty / 1 / 3 / 24) x layout (distinct / p on s centres / centers_p IS centers_s / one centre / points
+       IS centers_s / coeffs_s IS alphas_s) x points (0 / 1 / 6 / 1500) x array form (float64 / lists / int64 /
+       float32 / Fortran / strided / read-only) x flag (omitted / bool / numpy.bool_) x style (positional /
+       keyword): the first 4 points against the specification's superposition, all points against the sum
+       of the library's own single-centre functions, the last point (1e6 bohr away) against total charge / r.
+    C. value lattice: alpha = 10^k for k = -10..10, the exponents of the shipped sets (0.077 .. 3.0e6; quick:
+       extremes and two drawn per element, thorough: all), radii 1e150, 1e200, 1e300 and infinity, with two
+       more clauses that do not depend on the formula returned: unnormalised / normalised = the documented
+       constant (Coulomb!DocNormIsDerived) and r V = Q for sqrt(alpha) r >= 7 (Coulomb!FarFieldForm).
+    Lookups: NumPy integers of every width, numpy.str_, and the same lookups with the lazily loaded table
+    forgotten first (first use), followed by a lookup of a fitted element (Coulomb!ParamsColdConform).
+
+Calibration of the audit clauses (pinned tree, 2026-09-26, thorough): value lattice s 3.5e-15, p (documented
+formula) 6.2e-15 - both at alpha = 1e10, r just below 1e-12, i.e. the truncation error alpha r^2 / 3 of the
+library's small-r branch, which bounds the decade range at 1e10 (1e12 would cost 3e-13); documented-factor
+clause 4.4e-16; far-field clause 4.4e-16; call forms (exact class) 4.2e-16, float32 alpha 9.6e-8 .. 1.4e-7
+(tolerance 1e-4, derived in CoulombForms!TolExp); configurations vs spec 1.0e-15, vs own superposition 0
+(bitwise); far point: rigorous dipole bound d / (R - d), used up to 0.95 of it.
+
 Tolerance (calibrated on the pinned tree, 2026-09-25): largest relative deviation of
 ``coulomb_gaussian_s`` from the 50-digit tree value over the thorough set: 4.5e-16; of
 ``coulomb_gaussian_p`` from the tree of the formula it documents: 6.7e-16; coulomb_potential
@@ -49,10 +81,26 @@ PROP = "C17"
 RTOL = 1e-12
 JSON_PARAMS = Path(os.environ.get("VERIF_REPO", "/repo")) / "src/grid/data/atomic_gauss_params.json"
 THRESH = 1e-12  # documented switch of the implementation (only used to PLACE sample points)
+TINY = 1e-290   # potentials below this are (nearly) subnormal floats: compared by magnitude only (radii >= 1e100)
 
 
 # ---------------------------------------------------------------------------------------------
 # specification side
+
+_SYM = []
+
+
+def _symbols():
+    """The periodic table of the specification (Coulomb!Symbol), parsed from the module."""
+    if not _SYM:
+        import re
+        src = (tlc.SPEC / "Coulomb.tla").read_text()
+        m = re.search(r"Symbol == <<(.*?)>>", src, re.S)
+        _SYM.extend(re.findall(r'"([A-Za-z]+)"', m.group(1)))
+        if len(_SYM) != 118:
+            raise tlc.MachineryError("could not read the periodic table from Coulomb.tla")
+    return _SYM
+
 
 def write_tables(wd: Path, keys=None, lens=None, obs_file: str | None = None, maxalpha=None) -> None:
     keys = list(keys or ["H"])
@@ -86,6 +134,7 @@ class Oracle:
 
     def __init__(self, trees):
         self.t = trees
+        self._cache = {}
 
     @staticmethod
     def _env(r, alpha):
@@ -96,10 +145,30 @@ class Oracle:
         t = self.t[kind]
         if r == 0:
             return evaluate_mag(t["V0" if which == "spec" else "CodeV0"], self._env(r, alpha), "mp")
+        if r == math.inf:      # Coulomb!FarFieldForm: r V -> Q, hence V -> 0 (both the derived and the documented formula)
+            z = evaluate(t["VInf"], {}, "mp")
+            return z, z
         return evaluate_mag(t["Vr" if which == "spec" else "CodeV"], self._env(r, alpha), "mp")
 
+    def vc(self, kind, r, alpha, which="spec"):
+        """Cached value of ``v`` (call forms and configurations reuse few distinct (r, alpha))."""
+        k = (kind, float(r), float(alpha), which)
+        if k not in self._cache:
+            self._cache[k] = self.v(kind, float(r), float(alpha), which)[0]
+        return self._cache[k]
+
     def norm(self, kind, alpha):
-        return evaluate(self.t[kind]["Norm"], {"alpha": mp.mpf(alpha)}, "mp")
+        k = ("norm", kind, float(alpha))
+        if k not in self._cache:
+            self._cache[k] = evaluate(self.t[kind]["Norm"], {"alpha": mp.mpf(alpha)}, "mp")
+        return self._cache[k]
+
+    def docnorm(self, kind, alpha):
+        """The constant the docstrings give for the unnormalised variant (Coulomb!DocNormCoef)."""
+        return evaluate(self.t[kind]["DocNorm"], {"alpha": mp.mpf(alpha)}, "mp")
+
+    def farx(self):
+        return float(evaluate(self.t["s"]["FarX"], {}, "mp"))
 
     def rho(self, kind, r, alpha, form="RhoAlg"):
         return evaluate(self.t[kind][form], self._env(r, alpha), "mp")
@@ -151,9 +220,47 @@ def validate_oracle(orc: Oracle, rng, n_pairs: int):
 # ---------------------------------------------------------------------------------------------
 # implementation side: load_atomic_gaussian_params observations (judged by TLC)
 
-def _observe_params(arg, table):
+def _outcome(arg):
     from grid.coulomb import load_atomic_gaussian_params
-    o = {"status": "ok", "lenc": -1, "lena": -1, "bad": -1, "matches": "", "stable": 0}
+    try:
+        c, a = load_atomic_gaussian_params(arg)
+        return ("ok", np.array(c, copy=True), np.array(a, copy=True))
+    except Exception as e:  # noqa: BLE001
+        return (type(e).__name__, None, None)
+
+
+def _same_outcome(x, y):
+    return x[0] == y[0] and (x[1] is None or (x[1].shape == y[1].shape and x[2].shape == y[2].shape and
+                                              np.array_equal(x[1], y[1]) and np.array_equal(x[2], y[2])))
+
+
+def _observe_cold(arg, table, o):
+    """The anchor's state: the table is loaded on first use.  Forget it (as in a fresh process), repeat the
+    lookup - same outcome as with the table in memory? - and look a fitted element up right after it."""
+    import grid.coulomb as gc
+    o["cold"], o["coldnext"] = -1, -1
+    if not hasattr(gc, "_ATOMIC_GAUSS_PARAMS_CACHE"):
+        return
+    warm = _outcome(arg)
+    saved = gc._ATOMIC_GAUSS_PARAMS_CACHE
+    try:
+        gc._ATOMIC_GAUSS_PARAMS_CACHE = None
+        cold = _outcome(arg)
+        o["cold"] = int(_same_outcome(warm, cold))
+        k = sorted(table)[len(str(arg)) % len(table)]
+        nxt = _outcome(k)
+        o["coldnext"] = int(nxt[0] == "ok" and np.array_equal(nxt[1], np.array(table[k]["coeffs_s"], dtype=float))
+                            and np.array_equal(nxt[2], np.array(table[k]["alphas_s"], dtype=float)))
+    finally:
+        if gc._ATOMIC_GAUSS_PARAMS_CACHE is None:
+            gc._ATOMIC_GAUSS_PARAMS_CACHE = saved
+
+
+def _observe_params(arg, table, cold=False):
+    from grid.coulomb import load_atomic_gaussian_params
+    o = {"status": "ok", "lenc": -1, "lena": -1, "bad": -1, "matches": "", "stable": 0, "cold": -1, "coldnext": -1}
+    if cold:
+        _observe_cold(arg, table, o)
     try:
         c, a = load_atomic_gaussian_params(arg)
     except Exception as e:  # noqa: BLE001
@@ -203,8 +310,8 @@ def record_param_observations(rep, rng, tier, symbols):
                           f"element {k}: {len(table[k]['coeffs_s'])} coefficients but {len(table[k]['alphas_s'])} exponents")
     obs = []
 
-    def put(route, canon, z, arg):
-        o = _observe_params(arg, table)
+    def put(route, canon, z, arg, cold=False):
+        o = _observe_params(arg, table, cold)
         o.update(route=route, canon=canon, z=int(z))
         obs.append(o)
         rep.evaluated(1, ("params", route, canon, int(z), str(arg)))
@@ -220,21 +327,51 @@ def record_param_observations(rep, rng, tier, symbols):
         put("number", "", z, z)
     for bad in ("", "Xx", "Hh", "H1", "C l", "carbon", "1"):
         put("symbol", "", 0, bad)
+    # "every element symbol/number": numbers of every NumPy integer type, NumPy strings; and the same lookups with
+    # the lazily loaded table forgotten first (first use), including refused ones followed by a fitted element
+    zs = sorted({symbols.index(k) + 1 for k in keys if k in symbols} | {2, 3, 118})
+    for z in zs:
+        for ty in (np.int32, np.int16, np.int8, np.uint8, np.uint16, np.uint32, np.uint64, np.intc, np.longlong):
+            put("number", "", z, ty(z))
+        put("symbol", symbols[z - 1], z, np.str_(symbols[z - 1]))
+        put("symbol", symbols[z - 1], z, symbols[z - 1], cold=True)
+        put("number", "", z, z, cold=True)
+    put("number", "", 0, 0, cold=True)
+    put("number", "", 119, np.int64(119), cold=True)
+    put("symbol", "", 0, "Xx", cold=True)
+    put("symbol", symbols[0], 1, "  h ", cold=True)
     return keys, lens, obs
 
 
 # ---------------------------------------------------------------------------------------------
 # implementation side: potentials
 
-def _alphas(tier, rng):
+def _alphas(tier, rng, lattice=None, table=None, lobs=None):
     lat = [10 ** (k / 2) for k in range(-6, 9)]  # 1e-3 .. 1e4
     lat += [0.5, 2.0, 3.0, 7.0 / 3.0, 50.0]
     n = 6 if tier == "quick" else 110
     lat += [10 ** rng.uniform(-3, 4) for _ in range(n)]
+    if lattice is not None:
+        # CoulombForms Part C: every decade of the specification's range, and the exponents of the shipped
+        # per-element sets (0.077 .. 3e6: what the routine is used with) - all of them in the thorough tier
+        dec = [int(k) for k in lattice["decades"]]
+        lat += [10.0 ** k for k in dec if 10.0 ** k not in lat]
+        ship = []
+        for key, v in (table or {}).items():
+            al = sorted(float(a) for a in v["alphas_s"])
+            pick = al if tier != "quick" else sorted({al[0], al[-1], *rng.sample(al, min(2, len(al)))})
+            lat += pick
+            ship.append({"key": key, "n": len(pick), "extremes": bool(al[0] in pick and al[-1] in pick)})
+        if tier != "quick":
+            lat += [10 ** rng.uniform(-10, 10) for _ in range(40)]
+        else:
+            lat += [10 ** rng.uniform(-10, -3), 10 ** rng.uniform(4, 10)]
+        if lobs is not None:
+            lobs.update(decades=dec, shipped=ship)
     return lat
 
 
-def _radii(alpha, tier, rng):
+def _radii(alpha, tier, rng, lattice=None, lobs=None):
     rs = [0.0, 5e-324, 1e-300, 1e-20, 1e-13, 9e-13, math.nextafter(THRESH, 0), THRESH, math.nextafter(THRESH, 1),
           1.1e-12, 1e-11, 1e-9, 1e-6, 1e-4, 1e-3, 1e-2, 0.1, 0.5, 1.0, 2.0, 5.0, 10.0, 1e2, 1e3, 1e5, 1e8]
     sa = math.sqrt(alpha)
@@ -242,6 +379,11 @@ def _radii(alpha, tier, rng):
     n = 6 if tier == "quick" else 40
     rs += [10 ** rng.uniform(-14, 8) for _ in range(n)]
     rs += [rng.uniform(0, 6) / sa for _ in range(n)]
+    if lattice is not None:
+        # "very large r": beyond the overflow of r^2, up to infinity (Coulomb!FarFieldForm: V -> 0)
+        rs += [10.0 ** int(k) for k in lattice["huge"]] + [math.inf, 7.0 / sa, 8.5 / sa]
+        if lobs is not None:
+            lobs.update(huge=[int(k) for k in lattice["huge"]], infinity=True)
     return rs
 
 
@@ -262,15 +404,19 @@ def _close(obs, exp, mag, rtol=RTOL):
     return err <= tol, (err / abs(exp_f) if exp_f else err)
 
 
-def check_single_centre(rep, orc, tier, rng, stats):
+def check_single_centre(rep, orc, tier, rng, stats, lattice=None, table=None, lobs=None):
     from grid.coulomb import coulomb_gaussian_p, coulomb_gaussian_s
     fns = {"s": coulomb_gaussian_s, "p": coulomb_gaussian_p}
-    for alpha in _alphas(tier, rng):
-        rs = _radii(alpha, tier, rng)
+    farx = orc.farx() if lattice is not None else None
+    for alpha in _alphas(tier, rng, lattice, table, lobs):
+        rs = _radii(alpha, tier, rng, lattice, lobs)
         arr = np.array(rs)
+        outs = {}
         for kind in ("s", "p"):
             for normalized in (True, False):
                 out, err = _call(fns[kind], arr, alpha, normalized)
+                if err is None and out.shape == arr.shape:
+                    outs[kind, normalized] = out
                 name = f"coulomb_gaussian_{kind}"
                 if err is not None or out.shape != arr.shape:
                     rep.violation(f"{name}:raises:normalized={normalized}",
@@ -282,6 +428,9 @@ def check_single_centre(rep, orc, tier, rng, stats):
                     e, m = orc.v(kind, r, alpha)
                     e, m = e * nfac, m * nfac
                     ok, rel = _close(o, e, m)
+                    if abs(float(e)) < TINY and r >= 1e100:
+                        # (new radii only) the potential itself is a subnormal float or underflows: magnitude only
+                        ok, rel = bool(0.0 <= o <= 2 * TINY), abs(o - float(e))
                     rep.evaluated(1, (kind, normalized, alpha, r))
                     case = {"function": name, "alpha": alpha, "r": r, "normalized": normalized,
                             "observed": o, "spec": float(e), "rel_err": rel}
@@ -311,6 +460,8 @@ def check_single_centre(rep, orc, tier, rng, stats):
                     rep.violation(f"{name}:{region}:normalized={normalized}:alpha={alpha:.6g}:r={r:.6g}",
                                   f"{name}(r={r!r}, alpha={alpha!r}, normalized={normalized}) = {o!r}; the potential of the documented "
                                   f"density (Coulomb.tla) is {float(e)!r} (relative deviation {rel:.3g})", case)
+        if lattice is not None:
+            _check_factor_and_far(rep, orc, alpha, rs, arr, outs, farx, stats)
         # continuity across the small-r switch (a clause of its own: it holds or fails whatever formula is
         # returned on either side).  Coulomb!V2Coef bounds the change of V over one ulp of r at r ~ 1e-12 by
         # alpha r^2 * 1e-16 relative, i.e. far below 1e-9 for every alpha sampled here.
@@ -335,6 +486,52 @@ def check_single_centre(rep, orc, tier, rng, stats):
             out, err = _call(fns[kind], 0.75, alpha, True)
             if err is not None or out.shape != (1,):
                 rep.violation(f"coulomb_gaussian_{kind}:scalar-input", f"scalar r: {err or out.shape}", {"alpha": alpha})
+
+
+def _check_factor_and_far(rep, orc, alpha, rs, arr, outs, farx, stats):
+    """Two clauses of the statement that hold or fail whatever formula is returned (hence also for the p-type
+    function, whose values are a recorded finding):
+      * "the unnormalised variants differ by the documented constant factor": unnormalised / normalised at
+        the same radius = Coulomb!DocNormCoef pi^(3/2) alpha^-(l+3/2) (TLC: equal to the derived constant);
+      * "tend to total charge over r at large r": r V = Q (1 for the normalised density, the documented
+        constant for the unnormalised one) wherever sqrt(alpha) r >= Coulomb!FarX (TLC: FarFieldForm).
+    Error budget: one product by a constant that is itself 3-4 roundings from exact -> <= 1e-15; RTOL = 1e-12."""
+    for kind in ("s", "p"):
+        doc = float(orc.docnorm(kind, alpha))
+        a, b = outs.get((kind, True)), outs.get((kind, False))
+        if a is None or b is None:
+            continue  # reported by the caller
+        with np.errstate(all="ignore"):
+            sel = np.isfinite(a) & (np.abs(a) > TINY) & (np.abs(b) > TINY)
+            ratio = np.where(sel, b / np.where(sel, a, 1.0), doc)
+            dev = np.abs(ratio / doc - 1.0)
+        rep.evaluated(1, ("documented-factor", kind, alpha))
+        bad = ~(dev <= RTOL)
+        if np.any(bad):
+            i = int(np.argmax(bad))
+            rep.violation(f"coulomb_gaussian_{kind}:unnormalised-factor:alpha={alpha:.6g}:r={rs[i]:.6g}",
+                          f"coulomb_gaussian_{kind}(r={rs[i]!r}, alpha={alpha!r}): normalized=False / normalized=True = {float(ratio[i])!r}, the "
+                          f"documented constant factor is {doc!r} (relative deviation {float(dev[i]):.3g})",
+                          {"function": f"coulomb_gaussian_{kind}", "alpha": alpha, "r": rs[i], "unnormalised": float(b[i]), "normalised": float(a[i]),
+                           "documented_factor": doc})
+        else:
+            stats["factor"] = max(stats["factor"], float(np.max(dev)))
+        for normalized, out, q in ((True, a, 1.0), (False, b, doc)):
+            with np.errstate(all="ignore"):
+                sel = np.isfinite(arr) & (math.sqrt(alpha) * arr >= farx) & (q / np.where(arr > 0, arr, 1.0) > TINY)
+                rv = np.where(sel, out * arr / q, 1.0)
+                dev = np.abs(rv - 1.0)
+            rep.evaluated(1, ("far-field", kind, normalized, alpha))
+            bad = ~(dev <= RTOL)
+            if np.any(bad):
+                i = int(np.argmax(bad))
+                rep.violation(f"coulomb_gaussian_{kind}:far-field:normalized={normalized}:alpha={alpha:.6g}:r={rs[i]:.6g}",
+                              f"coulomb_gaussian_{kind}(r={rs[i]!r}, alpha={alpha!r}, normalized={normalized}) = {float(out[i])!r}: r V / Q = "
+                              f"{float(rv[i])!r} at sqrt(alpha) r = {math.sqrt(alpha) * rs[i]:.3g} >= {farx:g}, where the potential is the total "
+                              f"charge over r to every digit", {"function": f"coulomb_gaussian_{kind}", "alpha": alpha, "r": rs[i],
+                                                               "normalized": normalized, "observed": float(out[i]), "total_charge": q})
+            else:
+                stats["far"] = max(stats["far"], float(np.max(dev)))
 
 
 def check_superposition(rep, orc, tier, rng, stats):
@@ -440,19 +637,580 @@ def check_superposition(rep, orc, tier, rng, stats):
 
 
 # ---------------------------------------------------------------------------------------------
+# call forms and configurations (spec/CoulombForms*.tla): TLC emits the request tables, the harness
+# realises them, TLC judges the observations and their completeness
+
+def forms_tables(wd: Path):
+    res = tlc.run_tlc("CoulombFormsGen", "Gen_CoulombForms.cfg", wd, workers=1, timeout=300).require_ok("Gen_CoulombForms")
+    if res.status != "ok":
+        raise tlc.MachineryError("CoulombFormsGen: the request tables are not sane: " + str(res.violated))
+    with open(wd / "coulomb_forms.json") as f:
+        return json.load(f), res
+
+
+def _in_class(cls, r, alpha, farx):
+    x = math.sqrt(alpha) * r
+    return {"Z": r == 0.0, "B": 0.0 < r < THRESH, "T": r == THRESH, "A": THRESH <= r <= 1e100,
+            "F": THRESH <= r <= 1e100 and x >= farx, "H": 1e150 <= r < math.inf, "I": r == math.inf}[cls]
+
+
+def _class_pool(cls, dom, alpha, farx):
+    """Radii (exact float64 values) of a class that the domain of the r form can hold."""
+    sa = math.sqrt(alpha)
+    if dom == "int":
+        base = {"Z": [0], "A": [1, 2, 3, 5], "F": [10 ** 3, 10 ** 6, 10 ** 9, 10 ** 15]}[cls]
+        vals = [float(v) for v in base]
+    else:
+        base = {"Z": [0.0],
+                "B": [5e-324, 1e-300, 1e-45, 1e-30, 1e-20, 1e-13, 9e-13, math.nextafter(THRESH, 0)],
+                "T": [THRESH],
+                "A": [math.nextafter(THRESH, 1), 2e-12, 1e-9, 1e-6, 1e-3 / sa, 0.3 / sa, 1.0 / sa, 2.5 / sa, 5.9 / sa,
+                      6.1e-5, 0.01, 0.5, 1.0, 2.0],
+                "F": [7.5 / sa, 12.0 / sa, 40.0 / sa, 40.0, 1e3, 6e4, 1e8, 1e30],
+                "H": [1e150, 1e200, 1e300, 1.5e308],
+                "I": [math.inf]}[cls]
+        if dom in ("f4", "f2"):
+            dt = np.float32 if dom == "f4" else np.float16
+            with np.errstate(all="ignore"):
+                base = [float(dt(v)) for v in base]
+        vals = [float(v) for v in base]
+    out = []
+    for v in vals:
+        if _in_class(cls, v, alpha, farx) and v not in out:
+            out.append(v)
+    if not out:
+        raise tlc.MachineryError(f"no radius of class {cls} representable in domain {dom} for alpha={alpha}")
+    return out
+
+
+def _mk_r(rform, vals):
+    a = np.array(vals, dtype=float)
+    n = len(vals)
+    if rform == "f8":
+        return a
+    if rform == "list":
+        return [float(v) for v in vals]
+    if rform == "tuple":
+        return tuple(float(v) for v in vals)
+    if rform == "i8":
+        return np.array([int(v) for v in vals], dtype=np.int64)
+    if rform == "f4":
+        return a.astype(np.float32)
+    if rform == "f2":
+        return a.astype(np.float16)
+    if rform == "longdouble":
+        return a.astype(np.longdouble)
+    if rform == "strided":
+        big = np.full(2 * n + 1, -7.0)      # the gaps hold inadmissible radii: they must never be looked at
+        big[1::2] = a
+        return big[1::2]
+    if rform == "readonly":
+        a.setflags(write=False)
+        return a
+    if rform == "2d":
+        return a.reshape(2, n // 2)
+    if rform == "fortran2d":
+        return np.asfortranarray(a.reshape(2, n // 2))
+    if rform == "3d":
+        return a.reshape(1, 2, n // 2)
+    if rform == "0d":
+        return np.array(vals[0], dtype=float)
+    if rform == "pyfloat":
+        return float(vals[0])
+    if rform == "pyint":
+        return int(vals[0])
+    if rform == "npfloat":
+        return np.float64(vals[0])
+    raise tlc.MachineryError(f"unknown r form {rform}")
+
+
+def _mk_alpha(aform, q):
+    from fractions import Fraction
+    fr = Fraction(int(q[0]), int(q[1]))
+    mk = {"pyfloat": lambda: float(fr), "pyint": lambda: int(fr), "np.float64": lambda: np.float64(float(fr)),
+          "np.int64": lambda: np.int64(int(fr)), "np.int32": lambda: np.int32(int(fr)), "np.float32": lambda: np.float32(float(fr)),
+          "0d-f8": lambda: np.array(float(fr)), "0d-i8": lambda: np.array(int(fr)),
+          "np.int16": lambda: np.int16(int(fr)), "np.uint16": lambda: np.uint16(int(fr)),
+          "np.int8": lambda: np.int8(int(fr)), "np.uint8": lambda: np.uint8(int(fr))}
+    if aform not in mk:
+        raise tlc.MachineryError(f"unknown alpha form {aform}")
+    obj = mk[aform]()
+    val = float(obj)
+    if aform != "pyfloat" and aform != "np.float64" and aform != "0d-f8" and Fraction(val) != fr:
+        raise tlc.MachineryError(f"alpha {q} is not exactly representable as {aform}")
+    return obj, val
+
+
+def _snapshot(x):
+    if isinstance(x, np.ndarray):
+        return ("nd", x.dtype.str, x.shape, x.copy())
+    if isinstance(x, (list, tuple)):
+        return ("seq", type(x), tuple(x))
+    return ("scalar", type(x), x)
+
+
+def _same_as(x, snap):
+    if snap[0] == "nd":
+        return isinstance(x, np.ndarray) and x.dtype.str == snap[1] and x.shape == snap[2] and np.array_equal(x, snap[3], equal_nan=True)
+    if snap[0] == "seq":
+        return type(x) is snap[1] and tuple(x) == snap[2]
+    return type(x) is snap[1] and (x == snap[2] or (x != x and snap[2] != snap[2]))
+
+
+def _shares(out, *objs):
+    for o in objs:
+        if isinstance(o, np.ndarray) and isinstance(out, np.ndarray) and (out is o or np.shares_memory(out, o)):
+            return True
+    return False
+
+
+def _draw_forms(forms, tier, rng):
+    """thorough: every request of CoulombForms!ACases.  quick: a VERIF_SEED-drawn stratified part -
+    every (kind, r form, composition) with a drawn (alpha form, flag form) and every
+    (kind, alpha form, flag form) with a drawn (r form, composition), plus more at random."""
+    kinds, rt, at, nt = forms["kinds"], forms["rtable"], forms["atable"], forms["ntable"]
+    if tier != "quick":
+        return [(k, r, a, n) for k in kinds for r in rt for a in at for n in nt]
+    seen, out = set(), []
+
+    def add(k, r, a, n):
+        key = (k, r["rform"], r["comp"], a["aform"], n["nform"])
+        if key not in seen:
+            seen.add(key)
+            out.append((k, r, a, n))
+    for k in kinds:
+        for r in rt:
+            add(k, r, rng.choice(at), rng.choice(nt))
+        for a in at:
+            for n in nt:
+                add(k, rng.choice(rt), a, n)
+    target = len(out) + 900
+    while len(out) < target:
+        add(rng.choice(kinds), rng.choice(rt), rng.choice(at), rng.choice(nt))
+    return out
+
+
+def check_forms(rep, orc, tier, rng, forms, stats):
+    """Part A: realise the single-centre requests; returns the observation records for the judge."""
+    import grid.coulomb as gc
+    farx = orc.farx()
+    tolexp = forms["tolexp"]
+    obs = []
+    used = {}                                     # alpha form -> next pool index (every member gets used)
+    for ci, (kind, rrec, arec, nrec) in enumerate(_draw_forms(forms, tier, rng)):
+        fn = getattr(gc, f"coulomb_gaussian_{kind}")
+        aform, nform, rform, comp = arec["aform"], nrec["nform"], rrec["rform"], rrec["comp"]
+        j = used.get(aform, rng.randrange(100))
+        used[aform] = j + 1
+        q = arec["pool"][j % len(arec["pool"])]
+        aobj, aval = _mk_alpha(aform, q)
+        vals = []
+        for si, cls in enumerate(rrec["slots"]):
+            pool = _class_pool(cls, rrec["dom"], aval, farx)
+            vals.append(pool[(ci + 3 * si + rep.seed) % len(pool)])
+        robj = _mk_r(rform, vals)
+        rsnap, asnap = _snapshot(robj), _snapshot(aobj)
+        if nform == "omitted":
+            args, kw = (robj, aobj), {}
+        elif nform.startswith("pos-"):
+            args, kw = (robj, aobj, nform == "pos-true"), {}
+        elif nform.startswith("kw-"):
+            args, kw = (robj, aobj), {"normalized": nform == "kw-true"}
+        else:
+            args, kw = (robj, aobj), {"normalized": np.True_ if nform == "np-true" else np.False_}
+        o = {"kind": kind, "rform": rform, "comp": comp, "aform": aform, "nform": nform, "alpha": [int(q[0]), int(q[1])],
+             "tol": arec["tol"], "fac": nrec["fac"], "status": "ok", "shape": [], "dtype": "", "ncmp": 0, "nbad": 0, "nknown": 0,
+             "unchanged": True, "repeat": True, "fresh": True}
+        detail = {"radii": vals, "alpha_value": aval}
+        try:
+            with np.errstate(all="ignore"):
+                out = fn(*args, **kw)
+                out2 = fn(*args, **kw)
+        except Exception as e:  # noqa: BLE001
+            o["status"] = type(e).__name__
+            detail["error"] = str(e)[:200]
+            obs.append((o, detail))
+            rep.evaluated(1, ("form", kind, rform, comp, aform, nform))
+            continue
+        try:
+            o["unchanged"] = bool(_same_as(robj, rsnap) and _same_as(aobj, asnap))
+            o["fresh"] = not _shares(out, robj, aobj)
+            if not isinstance(out, np.ndarray):
+                o["dtype"] = type(out).__name__
+                out = np.asarray(out)
+            else:
+                o["dtype"] = out.dtype.name
+            o["shape"] = [int(x) for x in out.shape]
+            o["repeat"] = bool(isinstance(out2, np.ndarray) and out2.shape == out.shape and np.array_equal(out, out2, equal_nan=True))
+            flat = np.asarray(out, dtype=float).ravel().tolist()
+            rtol = 10.0 ** tolexp[arec["tol"]]
+            nfac = mp.mpf(1) if nrec["fac"] == "one" else orc.norm(kind, aval)
+            if len(flat) == len(vals):
+                for r, ov in zip(vals, flat):
+                    e = orc.vc(kind, r, aval) * nfac
+                    o["ncmp"] += 1
+                    ef = float(e)
+                    if abs(ef) < TINY:
+                        ok = bool(0.0 <= ov <= 2 * TINY)
+                        rel = abs(ov - ef)
+                    else:
+                        ok, rel = _close(ov, e, None, rtol)
+                    if ok:
+                        if kind == "s" and arec["tol"] == "exact" and arec["dom"] != "smallint":
+                            stats["forms_s"] = max(stats["forms_s"], rel)
+                        if arec["tol"] == "single":
+                            stats["forms_single"] = max(stats["forms_single"], rel)
+                        continue
+                    if kind == "p":
+                        ec = orc.vc("p", r, aval, "code") * nfac
+                        okc, relc = _close(ov, ec, None, rtol)
+                        if okc:
+                            o["nknown"] += 1
+                            kk = "known_origin" if r < THRESH else "known_tail"
+                            detail[kk] = detail.get(kk, 0) + 1
+                            if arec["tol"] == "single":
+                                stats["forms_single"] = max(stats["forms_single"], relc)
+                            continue
+                    o["nbad"] += 1
+                    detail.setdefault("first_bad", {"r": r, "observed": ov, "spec": ef, "rel_err": rel})
+        except Exception as e:  # noqa: BLE001
+            o["status"] = "postprocessing:" + type(e).__name__
+            detail["error"] = str(e)[:200]
+        obs.append((o, detail))
+        rep.evaluated(1, ("form", kind, rform, comp, aform, nform))
+    return obs
+
+
+# ---- Part B --------------------------------------------------------------------------------------
+
+def _draw_sys(bt, tier, rng):
+    dims = ["sset", "pset", "layout", "npts", "dform", "nform", "style"]
+    n = 48 if tier == "quick" else 1000
+    cases = []
+    off = {d: rng.randrange(len(bt[d])) for d in dims}
+    for i in range(max(len(bt[d]) for d in dims)):           # every value of every dimension
+        cases.append({d: bt[d][(i + off[d]) % len(bt[d])] for d in dims})
+    while len(cases) < n:
+        cases.append({d: rng.choice(bt[d]) for d in dims})
+    if tier != "quick":                                       # every pair of values of two dimensions
+        have = {(d1, c[d1], d2, c[d2]) for c in cases for d1 in dims for d2 in dims if d1 < d2}
+        for d1 in dims:
+            for d2 in dims:
+                if d1 < d2:
+                    for v1 in bt[d1]:
+                        for v2 in bt[d2]:
+                            if (d1, v1, d2, v2) not in have:
+                                c = {d: rng.choice(bt[d]) for d in dims}
+                                c[d1], c[d2] = v1, v2
+                                cases.append(c)
+                                have |= {(a, c[a], b, c[b]) for a in dims for b in dims if a < b}
+    return cases
+
+
+def _as_form(x, dform, what):
+    """Give the float64 array ``x`` (values already representable) the requested form."""
+    if dform == "f8":
+        return np.array(x, dtype=float)
+    if dform == "lists":
+        return x.tolist() if x.size else np.array(x, dtype=float)     # [] cannot say (0, 3)
+    if dform == "ints":
+        return x.astype(np.int64) if what != "fitted" else np.array(x, dtype=float)
+    if dform == "f4":
+        return x.astype(np.float32)
+    if dform == "fortran":
+        return np.asfortranarray(x)
+    if dform == "strided":
+        big = np.full((2 * x.shape[0] + 1,) + x.shape[1:], 1e3)
+        big[1::2] = x
+        return big[1::2]
+    if dform == "readonly":
+        y = np.array(x, dtype=float)
+        y.setflags(write=False)
+        return y
+    raise tlc.MachineryError(f"unknown array form {dform}")
+
+
+def _round_form(x, dform, integer_ok=True):
+    """Round values so that the form holds them exactly."""
+    if dform == "ints" and integer_ok:
+        return np.round(x)
+    if dform == "f4":
+        return x.astype(np.float32).astype(float)
+    return x
+
+
+def check_systems(rep, orc, tier, rng, forms, table, stats):
+    """Part B: realise requests to coulomb_potential; returns observation records."""
+    import grid.coulomb as gc
+    bt = forms["sys"]
+    truth = dict(zip(bt["nform"], bt["truth"]))
+    kfix = bt["kfixed"]
+    judged_max = int(bt["judged"])
+    keys = list(table)
+    nrng = np.random.default_rng(rep.seed + 1717)
+    ekey = [rng.randrange(len(keys))]
+
+    def next_elem():
+        ekey[0] += 1
+        return keys[ekey[0] % len(keys)]
+
+    cases = _draw_sys(bt, tier, rng)
+    slots = sum({"element": 1, "molecule": 3}.get(c["sset"], 0) for c in cases)
+    while slots < len(keys) + 1:                    # every shipped set goes through the routine
+        c = {d: rng.choice(bt[d]) for d in ("pset", "layout", "npts", "dform", "nform", "style")}
+        c["sset"] = "element"
+        cases.append(c)
+        slots += 1
+    obs = []
+    for ci, c in enumerate(cases):
+        dform, layout = c["dform"], c["layout"]
+        fitted = c["sset"] in ("element", "molecule")
+        elems = []
+
+        def centres(k):
+            x = nrng.uniform(-2, 2, size=(k, 3)).round(3)
+            return _round_form(x * (2 if dform == "ints" else 1), dform)
+
+        def coefs(k):
+            return _round_form(nrng.uniform(-3, 3, size=k).round(4), dform)
+
+        def alphas(k):
+            a = 10 ** nrng.uniform(-2, 5 if ci % 2 else 3, size=k)
+            if dform == "ints":
+                a = np.ceil(10 ** nrng.uniform(0, 3, size=k))
+            return _round_form(a, dform)
+        # ---- s functions
+        if fitted:
+            parts_c, parts_a, parts_x = [], [], []
+            for ie in range(1 if c["sset"] == "element" else 3):
+                el = next_elem()
+                elems.append(el)
+                arg = el if (ci + ie) % 2 else int([z for z in range(1, 119) if _symbols()[z - 1] == el][0])
+                try:
+                    co, al = gc.load_atomic_gaussian_params(arg)
+                    co, al = np.array(co, dtype=float), np.array(al, dtype=float)
+                except Exception:  # noqa: BLE001 - reported by the lookup part; use the file here
+                    co, al = np.array(table[el]["coeffs_s"], dtype=float), np.array(table[el]["alphas_s"], dtype=float)
+                ctr = centres(1)
+                parts_c.append(co)
+                parts_a.append(al)
+                parts_x.append(np.repeat(ctr, len(co), axis=0))
+            co_s, al_s, cs = np.concatenate(parts_c), np.concatenate(parts_a), np.concatenate(parts_x)
+            if dform == "f4":
+                co_s, al_s = _round_form(co_s, dform), _round_form(al_s, dform)
+        else:
+            ks = 0 if c["sset"] == "none" else int(kfix[c["sset"]])
+            cs, co_s, al_s = centres(ks), coefs(ks), alphas(ks)
+        ks = len(co_s)
+        # ---- p functions
+        present = c["pset"] not in ("omitted", "nones")
+        kp = 0
+        cp = co_p = al_p = None
+        if present:
+            kp = ks if layout == "p-alias-s" else (0 if c["pset"] == "empty" else int(kfix[c["pset"]]))
+            cp, co_p, al_p = centres(kp), coefs(kp), alphas(kp)
+        # ---- layout
+        if layout == "p-on-s" and present and ks and kp:
+            cp = np.array([cs[i % ks] for i in range(kp)])
+        if layout == "one-centre":
+            c0 = cs[0] if ks else (cp[0] if kp else np.zeros(3))
+            cs = np.repeat(c0[None, :], ks, axis=0)
+            if present:
+                cp = np.repeat(c0[None, :], kp, axis=0)
+        if layout == "coef-alias-alpha":
+            co_s = al_s.copy()
+        # ---- points
+        allc = np.concatenate([cs] + ([cp] if present else [])) if (ks + kp) else np.zeros((0, 3))
+        n = int(c["npts"])
+        pts = _round_form(nrng.uniform(-3, 3, size=(n, 3)).round(3) * (2 if dform == "ints" else 1), dform)
+        far = "none"
+        far_r = 1e6
+        if layout != "points-are-centres":
+            if n >= 1 and len(allc):
+                pts[0] = allc[0]                                  # on a centre: the r = 0 branch
+            if n >= 4 and len(allc) and dform not in ("ints", "f4"):
+                pts[1] = allc[-1] + [3e-13, 0, 0]                 # just below / above the switch
+                pts[2] = allc[0] + [0, 2e-12, 0]
+            if n >= 2:
+                d = np.zeros(3)
+                d[ci % 3] = far_r if ci % 2 else -far_r
+                pts[-1] = d
+                far = "todo"
+        else:
+            pts = cs
+            n = ks
+        # ---- the objects handed over
+        A = {"points": _as_form(pts, dform, "coords"), "centers_s": _as_form(cs, dform, "coords"),
+             "coeffs_s": _as_form(co_s, dform, "fitted" if fitted else "coef"),
+             "alphas_s": _as_form(al_s, dform, "fitted" if fitted else "alpha")}
+        if layout == "points-are-centres":
+            A["points"] = A["centers_s"]
+        if layout == "coef-alias-alpha":
+            A["coeffs_s"] = A["alphas_s"]
+        if present:
+            A["centers_p"] = _as_form(cp, dform, "coords")
+            A["coeffs_p"] = _as_form(co_p, dform, "coef")
+            A["alphas_p"] = _as_form(al_p, dform, "alpha")
+            if layout == "p-alias-s":
+                cp = cs
+                A["centers_p"] = A["centers_s"]
+        names = ["points", "centers_s", "coeffs_s", "alphas_s", "centers_p", "coeffs_p", "alphas_p"]
+        flag = {"omitted": None, "true": True, "false": False, "np-true": np.True_, "np-false": np.False_}[c["nform"]]
+        normalized = bool(truth[c["nform"]])
+        if c["style"] == "keyword":
+            args = ()
+            kw = {k: A[k] for k in names if k in A}
+            if c["pset"] == "nones":
+                kw.update(centers_p=None, coeffs_p=None, alphas_p=None)
+            if c["nform"] != "omitted":
+                kw["normalized"] = flag
+        else:
+            args = [A[k] for k in names[:4]]
+            kw = {}
+            if present:
+                args += [A[k] for k in names[4:]]
+            elif c["pset"] == "nones" or c["nform"] != "omitted":
+                args += [None, None, None]
+            if c["nform"] != "omitted":
+                args.append(flag)
+            args = tuple(args)
+        snaps = {k: _snapshot(v) for k, v in A.items()}
+        o = dict(c)
+        o.update(elems=elems, ks=int(ks), kp=int(kp), truth=normalized, status="ok", shape=[], dtype="", njudged=0, nbadspec=0,
+                 nlaw=0, nbadlaw=0, nknown=0, far="none", unchanged=True, repeat=True, fresh=True)
+        o["npts"] = int(c["npts"])
+        detail = {"case": {k: (v.tolist() if isinstance(v, np.ndarray) and v.size <= 60 else (v if not isinstance(v, np.ndarray) else f"array{v.shape}"))
+                           for k, v in A.items()}}
+        rep.evaluated(1, ("system", ci, tuple(sorted((k, str(v)) for k, v in c.items()))))
+        try:
+            with np.errstate(all="ignore"):
+                out = gc.coulomb_potential(*args, **kw)
+                out2 = gc.coulomb_potential(*args, **kw)
+        except Exception as e:  # noqa: BLE001
+            o["status"] = type(e).__name__
+            detail["error"] = str(e)[:300]
+            obs.append((o, detail))
+            continue
+        try:
+            o["unchanged"] = bool(all(_same_as(A[k], snaps[k]) for k in A))
+            o["fresh"] = not _shares(out, *A.values())
+            o["dtype"] = out.dtype.name if isinstance(out, np.ndarray) else type(out).__name__
+            out = np.asarray(out)
+            o["shape"] = [int(x) for x in out.shape]
+            o["repeat"] = bool(isinstance(out2, np.ndarray) and out2.shape == out.shape and np.array_equal(out, out2, equal_nan=True))
+            if out.shape == (n,):
+                outf = np.asarray(out, dtype=float)
+                fsets = [("s", cs, co_s, al_s)] + ([("p", cp, co_p, al_p)] if present else [])
+                # (b) the law: sum of the library's own single-centre functions, every point
+                lib = np.zeros(n)
+                libmag = np.zeros(n)
+                with np.errstate(all="ignore"):
+                    for kind, cen, co, al in fsets:
+                        f = gc.coulomb_gaussian_s if kind == "s" else gc.coulomb_gaussian_p
+                        for cc, a, ctr in zip(co, al, cen):
+                            t = float(cc) * np.asarray(f(np.linalg.norm(np.asarray(pts, dtype=float) - ctr, axis=-1), float(a), normalized=normalized), dtype=float)
+                            lib += t
+                            libmag += np.abs(t)
+                o["nlaw"] = int(n)
+                badlaw = ~(np.abs(outf - lib) <= RTOL * libmag + 5e-324)
+                o["nbadlaw"] = int(np.sum(badlaw))
+                if o["nbadlaw"]:
+                    i0 = int(np.argmax(badlaw))
+                    detail["first_bad_law"] = {"point": np.asarray(pts, dtype=float)[i0].tolist(), "observed": float(outf[i0]), "sum": float(lib[i0])}
+                elif n:
+                    with np.errstate(all="ignore"):
+                        stats["sys_law"] = max(stats["sys_law"], float(np.max(np.where(libmag > 0, np.abs(outf - lib) / np.where(libmag > 0, libmag, 1), 0))))
+                # (a) the specification's superposition, first JudgedMax points
+                for ip in range(min(n, judged_max)):
+                    p = np.asarray(pts, dtype=float)[ip]
+                    tot = totc = mag = magc = mp.mpf(0)
+                    for kind, cen, co, al in fsets:
+                        for cc, a, ctr in zip(co, al, cen):
+                            dd = float(orc.dist(p, ctr))
+                            nf = mp.mpf(1) if normalized else orc.norm(kind, float(a))
+                            v = orc.vc(kind, dd, float(a))
+                            vcode = orc.vc(kind, dd, float(a), "code") if kind == "p" else v
+                            tot += mp.mpf(float(cc)) * v * nf
+                            totc += mp.mpf(float(cc)) * vcode * nf
+                            mag += abs(mp.mpf(float(cc)) * v * nf)
+                            magc += abs(mp.mpf(float(cc)) * vcode * nf)
+                    ov = float(outf[ip])
+                    o["njudged"] += 1
+                    if abs(ov - float(tot)) <= RTOL * float(mag) + 5e-324:
+                        if not kp:
+                            stats["sys_spec"] = max(stats["sys_spec"], abs(ov - float(tot)) / float(mag) if mag else 0.0)
+                        continue
+                    if kp and abs(ov - float(totc)) <= RTOL * float(magc) + 5e-324:
+                        o["nknown"] += 1
+                        continue
+                    o["nbadspec"] += 1
+                    detail.setdefault("first_bad_spec", {"point": p.tolist(), "observed": ov, "spec": float(tot)})
+                # (c) far field: r V = sum_k c_k N_k up to the dipole term
+                if far == "todo":
+                    qtot = mp.mpf(0)
+                    qmag = mp.mpf(0)
+                    dmax = 0.0
+                    for kind, cen, co, al in fsets:
+                        for cc, a, ctr in zip(co, al, cen):
+                            nf = mp.mpf(1) if normalized else orc.norm(kind, float(a))
+                            qtot += mp.mpf(float(cc)) * nf
+                            qmag += abs(mp.mpf(float(cc)) * nf)
+                            dmax = max(dmax, float(np.linalg.norm(ctr)))
+                    rv = float(outf[-1]) * far_r
+                    tolf = float(qmag) * (dmax / (far_r - dmax) + 1e-12)
+                    o["far"] = "ok" if abs(rv - float(qtot)) <= tolf else "bad"
+                    if o["far"] == "bad":
+                        detail["far"] = {"r_times_V": rv, "total_charge": float(qtot), "tolerance": tolf}
+                    elif qmag:
+                        stats["sys_far_used"] = max(stats["sys_far_used"], abs(rv - float(qtot)) / tolf if tolf else 0.0)
+        except Exception as e:  # noqa: BLE001
+            o["status"] = "postprocessing:" + type(e).__name__
+            detail["error"] = str(e)[:300]
+        obs.append((o, detail))
+    return obs
+
+
+def judge_forms(rep, wd, tier, aobs, bobs, lattice):
+    """Second TLC run: CoulombFormsJudge decides every observation and the completeness of the set."""
+    with open(wd / "coulomb_forms_obs.json", "w") as f:
+        json.dump({"single": [o for o, _ in aobs], "sys": [o for o, _ in bobs], "lattice": lattice}, f)
+    res = tlc.run_tlc("CoulombFormsJudge", f"MC_CoulombForms_{'quick' if tier == 'quick' else 'thorough'}.cfg", wd,
+                      workers=2, timeout=1200).require_ok("MC_CoulombForms")
+    rep.tlc(res, "MC_CoulombForms")
+    am = tlcx.tagged(res.stdout, "AMISMATCH")
+    bm = tlcx.tagged(res.stdout, "BMISMATCH")
+    if len(am) != res.stdout.count('"AMISMATCH"') or len(bm) != res.stdout.count('"BMISMATCH"'):
+        raise tlc.MachineryError("could not parse every MISMATCH line of CoulombFormsJudge")
+    for _, ix, field in am:
+        o, d = aobs[int(ix) - 1]
+        key = (f"coulomb_gaussian_{o['kind']}:form:{field}:alpha={o['aform']}:r={o['rform']}:comp={o['comp']}:normalized={o['nform']}")
+        rep.violation(key, f"coulomb_gaussian_{o['kind']}(r as {o['rform']} [{o['comp']}: {d.get('radii')}], alpha = {o['alpha'][0]}/{o['alpha'][1]} as "
+                           f"{o['aform']}, normalized {o['nform']}): CoulombForms expects a fresh float64 array of the shape of r holding the "
+                           f"potential at every radius (tolerance class {o['tol']}), arguments untouched; failed clause: {field}; "
+                           f"observed {o}; {d.get('first_bad') or d.get('error') or ''}", {**o, **d})
+    for _, ix, field in bm:
+        o, d = bobs[int(ix) - 1]
+        coords = "/".join(str(o[k]) for k in ("sset", "pset", "layout", "npts", "dform", "nform", "style"))
+        rep.violation(f"coulomb_potential:config:{field}:{coords}",
+                      f"coulomb_potential request (s set / p set / layout / points / array form / flag / style) = {coords}, Ks = {o['ks']}, "
+                      f"Kp = {o['kp']}, elements {o['elems']}: failed clause: {field}; observed "
+                      f"{ {k: v for k, v in o.items() if k in ('status', 'shape', 'dtype', 'njudged', 'nbadspec', 'nlaw', 'nbadlaw', 'far', 'unchanged', 'repeat', 'fresh')} }; "
+                      f"{d.get('first_bad_law') or d.get('first_bad_spec') or d.get('far') or d.get('error') or ''}", {**o, **d})
+    if res.status == "violation":
+        for inv in res.violated:
+            rep.violation(f"forms:{inv}", f"CoulombFormsJudge: {inv} violated - the set of realised requests is incomplete or malformed "
+                                          f"(last state {tlc.last_state(res)})", {"invariant": inv})
+    return res
+
+
+# ---------------------------------------------------------------------------------------------
 
 def run(tier: str) -> int:
     rep = Report(PROP, tier, "model_checking")
     rng = random.Random(rep.seed)
     wd = tlc.scratch(f"{PROP}-{tier}")
 
-    # periodic table of the specification (needed to generate the lookups): parse it from the module
-    import re
-    src = (tlc.SPEC / "Coulomb.tla").read_text()
-    m = re.search(r"Symbol == <<(.*?)>>", src, re.S)
-    symbols = re.findall(r'"([A-Za-z]+)"', m.group(1))
-    if len(symbols) != 118:
-        raise tlc.MachineryError("could not read the periodic table from Coulomb.tla")
+    symbols = list(_symbols())     # periodic table of the specification (needed to generate the lookups)
 
     keys, lens, obs = record_param_observations(rep, rng, tier, symbols)
     with open(wd / "obs_params.json", "w") as f:
@@ -466,6 +1224,15 @@ def run(tier: str) -> int:
     mism = tlcx.tagged(res.stdout, "MISMATCH")
     if len(mism) != res.stdout.count('"MISMATCH"'):
         raise tlc.MachineryError("could not parse every MISMATCH line of TLC")
+    cold = tlcx.tagged(res.stdout, "COLDMISMATCH")
+    if len(cold) != res.stdout.count('"COLDMISMATCH"'):
+        raise tlc.MachineryError("could not parse every COLDMISMATCH line of TLC")
+    for _, i, o, canon in cold:
+        arg = "z=%s" % o.get("z") if o.get("route") == "number" else "variant-of=%r" % o.get("canon")
+        rep.violation(f"load_atomic_gaussian_params:first-use:{o.get('route')}:{arg}",
+                      f"load_atomic_gaussian_params lookup #{i} ({o.get('route')}, {arg}; element {canon or 'none'}) repeated with the lazily "
+                      f"loaded table forgotten: cold={o.get('cold')} (1 = same outcome as with the table in memory), coldnext={o.get('coldnext')} "
+                      f"(1 = the next lookup of a fitted element returned the shipped arrays)", o)
     for t in mism:
         _, i, o, canon = t
         arg = "z=%s" % o.get("z") if o.get("route") == "number" else "variant-of=%r" % o.get("canon")
@@ -488,9 +1255,36 @@ def run(tier: str) -> int:
     if not worst < 1e-25:
         raise tlc.MachineryError(f"spec trees disagree with multiprecision quadrature of the Coulomb integral: {worst}")
 
-    stats = {"s": 0.0, "p_code": 0.0, "p_defect": 0.0, "pot": 0.0, "superpos": 0.0}
-    check_single_centre(rep, orc, tier, rng, stats)
+    stats = {"s": 0.0, "p_code": 0.0, "p_defect": 0.0, "pot": 0.0, "superpos": 0.0, "factor": 0.0, "far": 0.0,
+             "forms_s": 0.0, "forms_single": 0.0, "sys_law": 0.0, "sys_spec": 0.0, "sys_far_used": 0.0}
+    # requests of the statement (CoulombForms): tables from TLC, realised here, judged by TLC
+    forms, resg = forms_tables(wd)
+    rep.tlc(resg, "Gen_CoulombForms")
+    with open(JSON_PARAMS) as f:
+        table = json.load(f)
+    lobs = {}
+    check_single_centre(rep, orc, tier, rng, stats, forms["lattice"], table, lobs)
     check_superposition(rep, orc, tier, rng, stats)
+    frng = random.Random(rep.seed * 7919 + 17)
+    aobs = check_forms(rep, orc, tier, frng, forms, stats)
+    bobs = check_systems(rep, orc, tier, frng, forms, table, stats)
+    for o, d in aobs:        # p-type answers that equal the documented formula: the recorded finding, under its own keys
+        t = o["fac"] == "one"
+        for kk, key in (("known_tail", f"coulomb_gaussian_p:gaussian-tail(+4/3 instead of -2/3):normalized={t}"),
+                        ("known_origin", f"coulomb_gaussian_p:origin-limit(10/3 instead of 4/3):normalized={t}")):
+            if d.get(kk):
+                rep.violation(key, f"coulomb_gaussian_p request {o['rform']}/{o['comp']}/{o['aform']}/{o['nform']}: {d[kk]} element(s) equal the "
+                                   "documented p-type formula, which is not the potential of the documented density", {**o, **d})
+    for o, d in bobs:
+        if o["nknown"]:
+            rep.violation(f"coulomb_potential:p-terms-inherit-coulomb_gaussian_p:normalized={o['truth']}",
+                          f"coulomb_potential request {o['sset']}/{o['pset']}/{o['layout']}: {o['nknown']} judged point(s) equal the superposition "
+                          "built from the documented (refuted) p-type formula", {**o, **d})
+    judge_forms(rep, wd, tier, aobs, bobs, lobs)
+    rep.set("call_form_requests", len(aobs))
+    rep.set("configuration_requests", len(bobs))
+    rep.sample({"call_form": aobs[0][0]})
+    rep.sample({"configuration": bobs[0][0]})
     rep.set("max_rel_dev_sound", stats)
     rep.set("rtol", RTOL)
     rep.set("traces_validated_against_impl", rep.evaluations)
@@ -519,6 +1313,10 @@ def selftest(tier: str = "quick") -> int:
     """In-process mutants of grid.coulomb (the file in /repo is never touched)."""
     from ..mutants import run_mutants, src
     M = "grid.coulomb"
+    import grid.coulomb as _gc
+    _text = Path(_gc.__file__).read_text()
+    _guard = ('    if alpha <= 0:\n        raise ValueError(f"Gaussian exponent alpha must be strictly positive; got {alpha}")\n')
+    _span = _text[_text.index(_guard):_text.rindex(_guard) + len(_guard)]      # from the guard of the s function to that of the p function
     mutants = [
         ("s-origin-constant-halved", src(M, "out[r < _R_ZERO_THRESHOLD] = 2.0 * sqrt_alpha / np.sqrt(np.pi)",
                                          "out[r < _R_ZERO_THRESHOLD] = 1.0 * sqrt_alpha / np.sqrt(np.pi)")),
@@ -544,6 +1342,46 @@ def selftest(tier: str = "quick") -> int:
                                                "            data['coeffs_s'] = np.asarray(data['coeffs_s'], dtype=float)\n"
                                                "            data['alphas_s'] = np.asarray(data['alphas_s'], dtype=float)\n")),
         ("params-swapped-return", src(M, "    return coeffs_s, alphas_s\n", "    return alphas_s, coeffs_s\n")),
+        # ---- audit: requests of CoulombForms (call forms, configurations, value lattice, first use of the table)
+        ("s-default-flag-false", src(M, "def coulomb_gaussian_s(r: np.ndarray, alpha: float, normalized: bool = True)",
+                                     "def coulomb_gaussian_s(r: np.ndarray, alpha: float, normalized: bool = False)")),
+        ("potential-default-flag-false", src(M, "    normalized: bool = True,\n", "    normalized: bool = False,\n")),
+        ("p-flag-tested-by-identity", src(M, "    if normalized:\n        return out\n\n    prefactor = (3.0 / 2.0)",
+                                          "    if normalized is True:\n        return out\n\n    prefactor = (3.0 / 2.0)")),
+        ("s-fast-path-all-above-switch-forgets-prefactor", src(M, "    out = np.empty_like(r)\n    sqrt_alpha = np.sqrt(alpha)\n",
+                                                               "    if np.all(r >= _R_ZERO_THRESHOLD):\n"
+                                                               "        return erf(np.sqrt(alpha) * r) / r\n"
+                                                               "    out = np.empty_like(r)\n    sqrt_alpha = np.sqrt(alpha)\n")),
+        ("s-unnormalised-answer-flattened", src(M, "    prefactor = (np.pi / alpha) ** 1.5\n    return prefactor * out",
+                                                "    prefactor = (np.pi / alpha) ** 1.5\n    return (prefactor * out).ravel()")),
+        ("s-clamps-small-radii-in-the-callers-array", src(M, "        raise ValueError(\"Radial distances r must be non-negative\")\n\n    out = np.empty_like(r)",
+                                                          "        raise ValueError(\"Radial distances r must be non-negative\")\n"
+                                                          "    r[r < _R_ZERO_THRESHOLD] = 0.0\n\n    out = np.empty_like(r)")),
+        ("s-large-r-flushed-to-zero", src(M, "    out[r < _R_ZERO_THRESHOLD] = 2.0 * sqrt_alpha / np.sqrt(np.pi)\n",
+                                          "    out[r < _R_ZERO_THRESHOLD] = 2.0 * sqrt_alpha / np.sqrt(np.pi)\n    out[r > 1e100] = 0.0\n")),
+        ("s-alpha-guard-1e-8", src(M, "    if alpha <= 0:\n", "    if alpha <= 1e-8:\n")),
+        ("p-float32-alpha-sqrt-in-half-precision", src(M, "    sqrt_alpha = np.sqrt(alpha)\n    term1 = np.zeros_like(r)",
+                                                       "    sqrt_alpha = np.sqrt(alpha).astype(np.float16) if isinstance(alpha, np.float32) else np.sqrt(alpha)\n"
+                                                       "    term1 = np.zeros_like(r)")),
+        ("potential-points-not-converted-to-float", src(M, "    points = np.asarray(points, dtype=float)\n", "    points = np.asarray(points)\n")),
+        ("potential-one-function-per-centre", src(M, "    for c, alpha, center in zip(coeffs_s, alphas_s, centers_s):\n",
+                                                  "    per_centre = {tuple(x): (a, b) for a, b, x in zip(coeffs_s, alphas_s, centers_s)}\n"
+                                                  "    for center, (c, alpha) in ((np.array(k), v) for k, v in per_centre.items()):\n")),
+        ("potential-empty-s-set-returns-early", src(M, "    V = np.zeros(points.shape[0], dtype=points.dtype)\n",
+                                                    "    V = np.zeros(points.shape[0], dtype=points.dtype)\n    if coeffs_s.size == 0:\n        return V\n")),
+        ("potential-first-1024-points-only", src(M, "        V += c * coulomb_gaussian_s(r, alpha, normalized=normalized)",
+                                                 "        V[:1024] += (c * coulomb_gaussian_s(r, alpha, normalized=normalized))[:1024]")),
+        ("potential-shifts-points-in-place", src(M, "        r = np.linalg.norm(points - center, axis=-1)\n        V += c * coulomb_gaussian_s",
+                                                 "        shift = np.array(center)\n        points -= center\n        r = np.linalg.norm(points, axis=-1)\n"
+                                                 "        points += shift\n        V += c * coulomb_gaussian_s")),
+        ("params-numpy-int64-only", src(M, "    elif isinstance(element, (int, np.integer)):", "    elif isinstance(element, (int, np.int64)):")),
+        ("params-refused-first-lookup-poisons-table", src(M, "                _ATOMIC_GAUSS_PARAMS_CACHE = json.load(f)\n",
+                                                          "                _ATOMIC_GAUSS_PARAMS_CACHE = {}\n"
+                                                          "                loaded = json.load(f)\n"
+                                                          "                loaded[json_symbol]\n"
+                                                          "                _ATOMIC_GAUSS_PARAMS_CACHE = loaded\n")),
+        # anti-mutant: the proposed repair of the small-integer-exponent finding must be accepted
+        ("REPAIRED-small-integer-alpha", src(M, _span, _span.replace(_guard, _guard + "    alpha = float(alpha)\n"))),
         # anti-mutant: the repaired p-type function must be ACCEPTED (no violation, no known finding needed)
         ("REPAIRED-p-function", src(M, "term2 = (4.0 / 3.0) * (sqrt_alpha / np.sqrt(np.pi)) * np.exp(-alpha * r**2)\n"
                                        "    out = term1 + term2\n"
@@ -553,4 +1391,4 @@ def selftest(tier: str = "quick") -> int:
                                        "    out = term1 + term2\n"
                                        "    out[r < _R_ZERO_THRESHOLD] = (4.0 / 3.0) * (sqrt_alpha / np.sqrt(np.pi))")),
     ]
-    return run_mutants(PROP, run, tier, mutants, expect={"REPAIRED-p-function": 0})
+    return run_mutants(PROP, run, tier, mutants, expect={"REPAIRED-p-function": 0, "REPAIRED-small-integer-alpha": 0})
